@@ -192,6 +192,8 @@ def gen_tx_case(rng, quick):
         L = rng.choice(lens) if rng.chance(4, 5) else rng.range(0, 600)
         if m <= 2 and L > 3000:
             L = L % 3000
+        if quick and L > 5000:
+            L = L % 5000
         pdus.append((rng.choice([4, 5, 6, FIXED_CID, 0x40, 0xFFFF]), (L, rng.range(1, 255), rng.range(0, 255))))
     return {'m': m, 'n': n, 'le': le, 'handle': handle, 'known': True, 'pdus': pdus}
 
@@ -227,7 +229,7 @@ def gen_asm_case(rng):
         kind = rng.choice(['cont', 'lost_start', 'truncated', 'stitched', 'overflow_last', 'overflow_start',
                            'extra_cont', 'dup_start', 'short_start', 'pb3', 'big_announce'])
         kinds.append(kind)
-        payload = rng.bytes(rng.choice([0, 1, m - 1, m, m + 1, 2 * m, 3 * m + 1, 40]))
+        payload = rng.bytes(rng.choice([0, 1, 3, 4, m - 1, m, m + 1, 2 * m, 3 * m + 1, 40]))
         pdu = l2(rng.choice([4, 5, FIXED_CID]), b'\xEE' + payload)
         fr = frags_of(handle, m, rng.choice([0, 2]), pdu)
         if kind == 'cont':
@@ -375,13 +377,18 @@ def gen_iso_case(rng):
         L = max(0, rng.choice(cands))
         if maxp <= 8:
             L = min(L, 400)
-        sdus.append(rng.bytes(L))
+        sdus.append((L, rng.range(1, 255), rng.range(0, 255)))
     return {'maxp': maxp, 'n': n, 'handle': handle, 'seq0': seq0, 'sdus': sdus, 'bis': rng.chance(1, 4)}
 
 
+def bytes_sum(b):
+    return [list(b[:13]), len(b), digest(b)]
+
+
 def iso_obs(p):
+    f = bytes(p.iso_sdu_fragment)
     return [p.connection_handle, p.pb_flag, p.data_total_length,
-            [p.packet_sequence_number, p.iso_sdu_length, p.packet_status_flag], bytes(p.iso_sdu_fragment)]
+            [p.packet_sequence_number, p.iso_sdu_length, p.packet_status_flag], [len(f), digest(f)]]
 
 
 def run_iso_impl(c, rng):
@@ -402,10 +409,10 @@ def run_iso_impl(c, rng):
     link = IsoLink(handle=c['handle'], packet_queue=q, packet_sequence_number=c['seq0'])
     (host.bis_links if c['bis'] else host.cis_links)[c['handle']] = link
     per_sdu = []
-    for sdu in c['sdus']:
+    for spec in c['sdus']:
         before = len(objs)
         try:
-            host.send_iso_sdu(c['handle'], sdu)
+            host.send_iso_sdu(c['handle'], pat(*spec))
             pump_completions(host, sink, c['handle'], rng, c['n'])
             per_sdu.append(('ok', before, len(objs)))
         except AssertionError:
@@ -418,16 +425,16 @@ def run_iso_impl(c, rng):
         pk = []
         for p, raw in zip(objs[a:b], sink.packets[a:b]):
             back = hci.HCI_Packet.from_bytes(raw)
-            pk.append([iso_obs(p), raw, iso_obs(back)])
+            pk.append([iso_obs(p), bytes_sum(raw), iso_obs(back), bytes(p.iso_sdu_fragment)])
         out.append(pk)
     return out, link.packet_sequence_number
 
 
 def iso_expr(c):
-    sd = coq_list(c['sdus'], coq_bytes)
+    sd = coq_list(c['sdus'], coq_pat)
     return (f"let '(os, s) := send_iso_sdus {c['handle']} {c['maxp']} {c['seq0']} {sd} in "
-            "(map (option_map (map (fun p => (iso_obs p, iso_to_bytes p, "
-            "match iso_to_bytes p with Some b => option_map iso_obs (iso_from_bytes b) | None => None end)))) os, s)")
+            "(map (option_map (map (fun p => (iso_sum p, option_map bytes_sum (iso_to_bytes p), "
+            "match iso_to_bytes p with Some b => option_map iso_sum (iso_from_bytes b) | None => None end)))) os, s)")
 
 
 def opt(v):
@@ -449,20 +456,22 @@ def iso_model_norm(res):
             continue
         pk = []
         for item in o:
-            # Coq prints left-nested pairs flat: (iso_obs p, raw, back) is a 7-tuple
+            # Coq prints left-nested pairs flat: (iso_sum p, raw, back) is a 7-tuple
             obs, raw, back = item[:5], item[5], item[6]
 
             def fix(ob):
-                h, pb, ln, info, frag = ob
-                return [h, pb, ln, [opt(x) for x in info], bytes(frag)]
-            pk.append([fix(obs), bytes(opt(raw)), fix(opt(back))])
+                h, pb, ln, info, fs = ob
+                return [h, pb, ln, [opt(x) for x in info], list(fs)]
+            r = opt(raw)
+            pk.append([fix(obs), [list(r[0]), r[1], r[2]], fix(opt(back))])
         out.append(pk)
     return out, s
 
 
 def iso_oracle(c, out, final_seq):
     seq = c['seq0']
-    for k, (sdu, pk) in enumerate(zip(c['sdus'], out)):
+    for k, (spec, pk) in enumerate(zip(c['sdus'], out)):
+        sdu = pat(*spec)
         if c['maxp'] <= 4 and sdu:
             continue            # the code refuses (assert): no statement
         if pk is None:
@@ -471,8 +480,8 @@ def iso_oracle(c, out, final_seq):
             seq = (seq + 1) & 0xFFFF
             continue            # zero-length SDU: see docs/C05.md open questions
         got = b''
-        for i, (obs, raw, back) in enumerate(pk):
-            h, pb, tl, (sq, sl, psf), frag = obs
+        for i, (obs, raw, back, frag) in enumerate(pk):
+            h, pb, tl, (sq, sl, psf), _ = obs
             first, last = i == 0, i == len(pk) - 1
             if h != c['handle']:
                 return f'sdu {k}: handle {h}'
@@ -481,8 +490,8 @@ def iso_oracle(c, out, final_seq):
                 return f'sdu {k} ({len(sdu)} bytes, max {c["maxp"]}): fragment {i} of {len(pk)} has pb {pb}'
             if tl != len(frag) + (4 if first else 0) or tl > c['maxp'] or not frag:
                 return f'sdu {k} ({len(sdu)} bytes, max {c["maxp"]}): fragment {i} data_total_length {tl}, {len(frag)} bytes'
-            if len(raw) != 5 + tl:
-                return f'sdu {k}: fragment {i} is {len(raw)} bytes on the wire for data_total_length {tl}'
+            if raw[1] != 5 + tl:
+                return f'sdu {k}: fragment {i} is {raw[1]} bytes on the wire for data_total_length {tl}'
             if first and (sq != seq or sl != len(sdu)):
                 return f'sdu {k} ({len(sdu)} bytes): first fragment has sequence {sq} (want {seq}) sdu length {sl}'
             if not first and (sq is not None or sl is not None):
@@ -535,16 +544,31 @@ async def two_device_scenario(geom, sends, budget=4000000):
     for c, (m, n) in zip(ctrls, geom):
         c.le_acl_data_packet_length = m
         c.total_num_le_acl_data_packets = n
-        c.acl_data_packet_length = m
-        c.total_num_acl_data_packets = n
+        # the BR/EDR buffers are different on purpose: the LE link must not use them
+        c.acl_data_packet_length = m + 3 if m + 3 <= 65535 else m - 3
+        c.total_num_acl_data_packets = n + 1
     devs = [Device(address=hci.Address(addrs[i]), host=Host(ctrls[i], AsyncPipeSink(ctrls[i]))) for i in range(2)]
-    for d in devs:
-        await d.power_on()
-    fut = loop.create_future()
-    devs[1].once('connection', fut.set_result)
-    await devs[1].start_advertising(advertising_interval_min=1.0)
-    conns = [await devs[0].connect(devs[1].random_address), None]
-    conns[1] = await fut
+
+    async def setup():
+        for d in devs:
+            await d.power_on()
+        fut = loop.create_future()
+        devs[1].once('connection', fut.set_result)
+        await devs[1].start_advertising(advertising_interval_min=1.0)
+        c0 = await devs[0].connect(devs[1].random_address)
+        return [c0, await fut]
+
+    # bounded: the set-up is stepped under an iteration budget so that a wedged power-on or
+    # connection is reported instead of suffered (the advertising interval is a 1 ms timer)
+    task = asyncio.ensure_future(setup())
+    for _ in range(3000000):
+        if task.done():
+            break
+        await asyncio.sleep(0)
+    if not task.done():
+        task.cancel()
+        raise RuntimeError(f'two-device set-up did not complete for geometry {geom}')
+    conns = task.result()
     tick = [0]
     tx = [[], []]      # ACL packets host i -> controller i
     rx = [[], []]      # ACL packets controller i -> host i
@@ -583,11 +607,6 @@ async def two_device_scenario(geom, sends, budget=4000000):
             hang = True
             break
     handles = [conns[0].handle, conns[1].handle]
-    for d in devs:
-        try:
-            await d.power_off()
-        except Exception:
-            pass
     return {'handles': handles, 'tx': tx, 'rx': rx, 'ev': ev, 'fx': fx, 'status': send_status,
             'hang': hang, 'loop_errors': sorted(set(loop_errors))}
 
@@ -628,19 +647,26 @@ def two_oracle(geom, sends, res):
     return None
 
 
+def model_cost(L, m_a, m_b):
+    """rough number of list cells the model touches for one PDU (reassembly is quadratic, as in the code)"""
+    return L + (L // max(1, min(m_a, m_b))) * L
+
+
 def gen_two_case(rng, big, quick=True):
+    budget = 20000000 if quick else 100000000
     ms = [2, 3, 4, 5, 7, 8, 16, 23, 27, 27, 32, 64, 251, 255, 256, 1021, 4096, 65535]
     geom = [(rng.choice(ms), rng.choice([1, 1, 2, 3, 8, 64])) for _ in range(2)]
     if big:
         geom = [(max(m, rng.choice([251, 1021, 4096] if quick else [27, 64, 251, 1021])), n) for m, n in geom]
+    mlo = min(geom[0][0], geom[1][0])
     sends = []
     for d in (0, 1):
         lens = boundary_lengths(rng, geom[d][0], False) + boundary_lengths(rng, geom[1 - d][0], False)
         k = rng.range(2, 5)
         for _ in range(k):
             L = rng.choice(lens)
-            if min(geom[0][0], geom[1][0]) <= 3:
-                L = L % 2000
+            if model_cost(L, geom[0][0], geom[1][0]) > budget // 8:
+                L = L % max(1, int((budget // 8 * mlo) ** 0.5))
             sends.append((d, rng.choice([FIXED_CID, FIXED_CID, 0x50, 0x7F]), (L, rng.range(1, 255), rng.range(0, 255))))
     if big:
         d = rng.below(2)
@@ -755,7 +781,7 @@ def run(ctx):
 
     # ================= phase 1: generate cases, run the implementation, queue model expressions
     # ---------------- E: codecs
-    codec = gen_codec_cases(rng, ctx.n(60, 600))
+    codec = gen_codec_cases(rng, ctx.n(40, 600))
     codec_idx = []
     for cid, payload in codec:
         pb = coq_bytes(payload)
@@ -763,7 +789,7 @@ def run(ctx):
             f"(l2cap_to_bytes {cid} {pb}, l2cap_to_bytes_fcs {cid} {pb}, crc16 {pb}, l2cap_from_bytes {pb}, "
             f"match l2cap_to_bytes {cid} {pb} with Some b => l2cap_from_bytes b | None => None end)"))
     hdr_cases = [(rng.choice([0, 1, 0xEFF, 0xFFF, rng.range(0, 0xFFF)]), rng.below(4), rng.below(4), rng.bytes(rng.below(6)))
-                 for _ in range(ctx.n(60, 600))]
+                 for _ in range(ctx.n(40, 600))]
     hdr_idx = []
     for h, pb, bc, data in hdr_cases:
         hdr_idx.append(batch.add(
@@ -782,7 +808,12 @@ def run(ctx):
         {'m': 65535, 'n': 1, 'le': True, 'handle': 1, 'known': True,
          'pdus': [(4, (65535, 7, 1)), (4, (65531, 9, 2)), (5, (65532, 1, 0))]},
     ]
-    for _ in range(ctx.n(250, 4000)):
+    # small scope, complete: every m up to 12 (24) x every payload length 0 .. 3m+2
+    for m in range(1, ctx.n(12, 24) + 1):
+        tx_cases.append({'m': m, 'n': 1 + m % 3, 'le': m % 2 == 0, 'handle': 0x40 + m, 'known': True,
+                         'pdus': [(FIXED_CID, (L, 5, L & 255)) for L in range(0, 3 * m + 3)]})
+    ctx.extra['exhaustive_fragmenter_scope'] = 'm in 1..%d, payload length 0..3m+2' % ctx.n(12, 24)
+    for _ in range(ctx.n(120, 2500)):
         tx_cases.append(gen_tx_case(rng, ctx.quick()))
     tx_runs = []
     for k, c in enumerate(tx_cases):
@@ -791,7 +822,7 @@ def run(ctx):
 
     # ---------------- B: assembler
     ctx.log('B: assembler')
-    asm_cases = [gen_asm_case(rng) for _ in range(ctx.n(300, 5000))]
+    asm_cases = [gen_asm_case(rng) for _ in range(ctx.n(160, 3000))]
     streams = [realise_stream(c) for c in asm_cases]
     asm_runs = []
     for k, (c, s) in enumerate(zip(asm_cases, streams)):
@@ -801,17 +832,17 @@ def run(ctx):
 
     # ---------------- C: ISO
     ctx.log('C: send_iso_sdu')
-    iso_cases = [gen_iso_case(rng) for _ in range(ctx.n(150, 2500))]
+    iso_cases = [gen_iso_case(rng) for _ in range(ctx.n(80, 1500))]
     iso_runs = []
     for k, c in enumerate(iso_cases):
         iso_runs.append(run_iso_impl(c, rng.fork(f'iso{k}')))
-        c['idx'] = batch.add(iso_expr(c), cost=1 + sum(len(s) for s in c['sdus']) // 2000)
+        c['idx'] = batch.add(iso_expr(c), cost=1 + sum(s[0] for s in c['sdus']) // 2000)
 
     # ---------------- D: two devices
     ctx.log('D: two devices')
     two_cases = [two_case_from_json(o['replay']) for o in load_corpus() if o.get('replay', {}).get('kind') == 'two']
     ncorpus = len(two_cases)
-    for k in range(ctx.n(40, 600)):
+    for k in range(ctx.n(28, 250)):
         two_cases.append(gen_two_case(rng, big=(k % 8 == 0), quick=ctx.quick()))
     two_runs = []
     for k, c in enumerate(two_cases):
@@ -819,11 +850,12 @@ def run(ctx):
         two_runs.append((res, replay))
         c['idx'] = []
         for d in (0, 1):
-            cost = 1
-            for dd, _, spec in c['sends']:
-                if dd == d:
-                    cost += spec[0] // 2000 + (spec[0] // min(c['geom'][0][0], c['geom'][1][0])) * spec[0] // 200000
-            c['idx'].append(batch.add(two_expr(c['geom'], c['sends'], res['handles'], d), cost=cost))
+            cost = sum(model_cost(spec[0], c['geom'][0][0], c['geom'][1][0]) for dd, _, spec in c['sends'] if dd == d)
+            if cost > (40000000 if ctx.quick() else 300000000):
+                c['idx'].append(None)       # judged by the oracle only
+                ctx.count('D.direction_without_model_evaluation')
+            else:
+                c['idx'].append(batch.add(two_expr(c['geom'], c['sends'], res['handles'], d), cost=1 + cost // 100000))
 
     # ================= phase 2: the model, once
     ctx.log(f'evaluating {len(batch.items)} model expressions')
@@ -922,22 +954,23 @@ def run(ctx):
 
     for k, (c, (out, final_seq)) in enumerate(zip(iso_cases, iso_runs)):
         mout, mseq = iso_model_norm(model[c['idx']])
-        multi = any(len(s) + 4 > c['maxp'] for s in c['sdus'])
+        iout = [None if o is None else [x[:3] for x in o] for o in out]
+        multi = any(s[0] + 4 > c['maxp'] for s in c['sdus'])
         ctx.case(('iso', c['maxp'], c['seq0'], c['sdus']), multi,
-                 {'kind': 'iso', 'max': c['maxp'], 'seq0': c['seq0'], 'sdu_lengths': [len(s) for s in c['sdus']]} if k % 50 == 2 else None)
+                 {'kind': 'iso', 'max': c['maxp'], 'seq0': c['seq0'], 'sdu_lengths': [s[0] for s in c['sdus']]} if k % 50 == 2 else None)
         ctx.count('C.cases')
         ctx.count('C.sdus', len(c['sdus']))
         ctx.count('C.refused' if c['maxp'] <= 4 else 'C.accepted')
         replay = {'kind': 'iso', 'maxp': c['maxp'], 'n': c['n'], 'handle': c['handle'], 'seq0': c['seq0'],
-                  'bis': c['bis'], 'sdus': [s.hex() for s in c['sdus']]}
-        if [mout, mseq] != [out, final_seq]:
-            ctx.disagree('Host.send_iso_sdu', replay, repr([mout, mseq])[:600], repr([out, final_seq])[:600])
+                  'bis': c['bis'], 'sdus': [list(s) for s in c['sdus']]}
+        if [mout, mseq] != [iout, final_seq]:
+            ctx.disagree('Host.send_iso_sdu', replay, repr([mout, mseq])[:600], repr([iout, final_seq])[:600])
         bad = iso_oracle(c, out, final_seq)
         if bad:
             ctx.violation('iso:' + bad.split(':')[-1].strip().split(' ')[0] + f':max={c["maxp"]}', f'send_iso_sdu: {bad}', replay)
         want_seq = c['seq0']
         for s in c['sdus']:
-            if not (c['maxp'] <= 4 and s):
+            if not (c['maxp'] <= 4 and s[0]):
                 want_seq = (want_seq + 1) & 0xFFFF
         if final_seq != want_seq:
             ctx.violation('iso:sequence', f'send_iso_sdu: sequence number {final_seq} after {len(c["sdus"])} SDUs from {c["seq0"]}', replay)
@@ -951,6 +984,8 @@ def run(ctx):
         ctx.count('D.pdus', len(sends))
         ctx.count('D.pdus>=65531', sum(1 for _, _, s in sends if s[0] >= 65531))
         for d in (0, 1):
+            if c['idx'][d] is None:
+                continue
             mtx, mmid, mrx = model[c['idx'][d]]
             recv = 1 - d
             itx = [acl_sum(f) for f in parse_acl(res['tx'][d])]
@@ -1016,7 +1051,7 @@ def search(ctx):
         if bad:
             ctx.violation('search:iso', f'send_iso_sdu: {bad}',
                           {'kind': 'iso', 'maxp': c['maxp'], 'n': c['n'], 'handle': c['handle'], 'seq0': c['seq0'],
-                           'bis': c['bis'], 'sdus': [s.hex() for s in c['sdus']]})
+                           'bis': c['bis'], 'sdus': [list(s) for s in c['sdus']]})
             return
 
 
@@ -1052,7 +1087,7 @@ def replay(ctx, obj):
         return 1 if bad else 0
     if kind == 'iso':
         c = {'maxp': r['maxp'], 'n': r['n'], 'handle': r['handle'], 'seq0': r['seq0'], 'bis': r['bis'],
-             'sdus': [bytes.fromhex(s) for s in r['sdus']]}
+             'sdus': [tuple(s) for s in r['sdus']]}
         out, fs = run_iso_impl(c, ctx.rng)
         print('packets per sdu', [None if o is None else [[x[0][1], x[0][2]] for x in o] for o in out], 'next sequence', fs)
         bad = iso_oracle(c, out, fs)
